@@ -31,6 +31,9 @@ theorem share_arrayLitAssignInPlace : share.arrayLitAssignInPlace = true := rfl
 theorem share_lookup2DefineFresh : share.lookup2DefineFresh = true := rfl
 theorem share_lookup2RedeclInPlace : share.lookup2RedeclInPlace = true := rfl
 theorem share_derefNilPanics : share.derefNilPanics = true := rfl
+theorem share_recvAssignsValue : share.recvAssignsValue = true := rfl
+theorem share_assertDefineFresh : share.assertDefineFresh = true := rfl
+theorem share_assertZeroOnFail : share.assertZeroOnFail = true := rfl
 
 theorem readSlots_ext {st st' : St} (h : Ext st st') : ∀ (ss : List Slot) (vs : List Val),
     readSlots st ss = .ok vs → readSlots st' ss = .ok vs := by
